@@ -21,12 +21,24 @@ impl Wake for Parker {
 }
 
 /// minimal executor on the facade's primitives; returns (output, polls, stamp at which Ready was seen)
-fn block_on<F: Future>(f: F) -> (F::Output, u32, u64) {
+/// `handed_over`: the future is first polled by somebody else (a waker nobody
+/// waits on), then by the executor with a waker of its own - only the waker of
+/// the most recent poll has to be woken (contract of Future::poll)
+fn block_on<F: Future>(f: F, handed_over: u32) -> (F::Output, u32, u64) {
+  let mut f = Box::pin(f);
+  let mut polls = 0;
+  for _ in 0..handed_over {
+    let other = Arc::new(Parker { m: FMutex::new(false), cv: Condvar::new() });
+    let w = Waker::from(other);
+    let mut cx = Context::from_waker(&w);
+    polls += 1;
+    if let Poll::Ready(v) = f.as_mut().poll(&mut cx) {
+      return (v, polls, rxverif_rt::stamp());
+    }
+  }
   let p = Arc::new(Parker { m: FMutex::new(false), cv: Condvar::new() });
   let waker = Waker::from(p.clone());
   let mut cx = Context::from_waker(&waker);
-  let mut f = Box::pin(f);
-  let mut polls = 0;
   loop {
     polls += 1;
     if let Poll::Ready(v) = f.as_mut().poll(&mut cx) {
@@ -49,10 +61,15 @@ struct Out {
 }
 
 fn tovec_scn(script: Vec<Emit<i64>>, sync_source: bool, q: Option<u32>, t: Option<u32>) -> Scn {
+  tovec_scn_x(script, sync_source, 0, q, t)
+}
+
+fn tovec_scn_x(script: Vec<Emit<i64>>, sync_source: bool, handed_over: u32, q: Option<u32>, t: Option<u32>) -> Scn {
   let name = format!(
-    "c18/{} P({})",
+    "c18/{} P({}){}",
     if sync_source { "synchronous source" } else { "source thread" },
-    script.iter().map(emit_label).collect::<Vec<_>>().join(",")
+    script.iter().map(emit_label).collect::<Vec<_>>().join(","),
+    if handed_over > 0 { format!(", polled {}x by another task first", handed_over) } else { String::new() }
   );
   let mut s = scn(&name, "to_vec", q, t, move || {
     let out = Arc::new(Mutex::new(Out::default()));
@@ -84,7 +101,7 @@ fn tovec_scn(script: Vec<Emit<i64>>, sync_source: bool, q: Option<u32>, t: Optio
           thread::spawn(run);
         }
       });
-      let (r, polls, ready_at) = block_on(src.to_vec());
+      let (r, polls, ready_at) = block_on(src.to_vec(), handed_over);
       let mut o = out2.lock().unwrap();
       o.polls = polls;
       o.ready_at = ready_at;
@@ -136,6 +153,8 @@ pub fn scenarios() -> Vec<Scn> {
     tovec_scn(vec![N(1), N(2), C], false, Some(3), Some(4)),
     tovec_scn(vec![N(1), E(7)], false, Some(3), Some(5)),
     tovec_scn(vec![E(7)], false, Some(3), Some(6)),
+    tovec_scn_x(vec![N(1), C], false, 1, Some(3), Some(5)),
+    tovec_scn_x(vec![N(1), E(7)], false, 2, Some(2), Some(4)),
     tovec_scn(vec![N(1), C], true, Some(1), Some(1)),
     tovec_scn(vec![E(7)], true, Some(1), Some(1)),
   ]
